@@ -57,6 +57,26 @@ var verifExtra = []string{
 	"match (n) where any(x in n.list where x = 1) and none(y in n.list where y = 2) return n",
 	"match (n) return {a: n.name, b: [1, 2]} as m",
 	"match (n) where n.v = -1 and n.f = 1.5 and n.e = 1e3 return n",
+	// magnitudes at which number formatting changes its mind
+	"return 1e21, 1.5e300, 999999999999999999999.0, 1e20, 123456789012345678901234.0",
+	"return 1e-7, 0.000001, 1e-320, 0.1, .5",
+	"match (n {w: 2.5e22}) where n.size > -4e25 return n.name",
+	"return 9223372036854775807, 0, 12",
+	"return 007",
+	// every pair of connectives without and with grouping, and negation
+	"match (n) where n.a = 1 or n.b = 2 xor n.c = 3 return n",
+	"match (n) where n.a = 1 xor n.b = 2 or n.c = 3 return n",
+	"match (n) where n.a = 1 and n.b = 2 xor n.c = 3 return n",
+	"match (n) where n.a = 1 xor n.b = 2 and n.c = 3 return n",
+	"match (n) where n.a = 1 or n.b = 2 and n.c = 3 return n",
+	"match (n) where n.a = 1 and n.b = 2 or n.c = 3 return n",
+	"match (n) where n.a = 1 or (n.b = 2 xor n.c = 3) return n",
+	"match (n) where (n.a = 1 or n.b = 2) xor n.c = 3 return n",
+	"match (n) where n.a = 1 and (n.b = 2 or n.c = 3) return n",
+	"match (n) where (n.a = 1 xor n.b = 2) and n.c = 3 return n",
+	"match (n) where not n.a = 1 xor not (n.b = 2 or not n.c = 3) return n",
+	"match (n) where n.a = 1 xor n.b = 2 xor n.c = 3 or n.d = 4 or n.e = 5 and n.f = 6 and n.g = 7 return n",
+	"match (n) return n.a = 1 or n.b = 2 xor n.c = 3, n.a = 1 and not n.b = 2",
 }
 
 // ---- content tokens ----------------------------------------------------------------
